@@ -114,6 +114,48 @@ pub fn buffer_size_radix<T: Int>(radix: u32) -> usize {
     radix_dispatch!(radix, F, WOPTS.buffer_size_const::<T, F>())
 }
 
+
+/// Same radix, format additionally requires a mantissa sign (`+` for non-negative values).
+#[cfg(feature = "format")]
+macro_rules! radix_dispatch_plus {
+    ($radix:expr, $f:ident, $body:expr) => {
+        radix_dispatch_plus!(@arms $radix, $f, $body, 2 3 4 5 6 7 8 9 10 11 12 13 14 15 16 17 18 19 20 21 22 23 24 25 26 27 28 29 30 31 32 33 34 35 36)
+    };
+    (@arms $radix:expr, $f:ident, $body:expr, $($r:literal)*) => {
+        match $radix {
+            $($r if supported_radices().contains(&$r) => {
+                const $f: u128 = plus_format($r);
+                $body
+            })*
+            _ => panic!("unsupported radix"),
+        }
+    };
+}
+
+#[cfg(feature = "format")]
+const fn plus_format(radix: u8) -> u128 {
+    #[cfg(feature = "power-of-two")]
+    {
+        NumberFormatBuilder::new().radix(radix).required_mantissa_sign(true).build_unchecked()
+    }
+    #[cfg(not(feature = "power-of-two"))]
+    {
+        let _ = radix;
+        NumberFormatBuilder::new().required_mantissa_sign(true).build_unchecked()
+    }
+}
+
+#[cfg(feature = "format")]
+#[inline(never)]
+pub fn write_radix_plus<'a, T: Int>(v: T, radix: u32, buf: &'a mut [u8]) -> &'a mut [u8] {
+    radix_dispatch_plus!(radix, F, lexical_core::write_with_options::<T, F>(v, buf, &WOPTS))
+}
+
+#[cfg(feature = "format")]
+pub fn buffer_size_radix_plus<T: Int>(radix: u32) -> usize {
+    radix_dispatch_plus!(radix, F, WOPTS.buffer_size_const::<T, F>())
+}
+
 /// Call `f` once per integer type.
 #[macro_export]
 macro_rules! for_each_int_type {
